@@ -12,6 +12,7 @@ KERNELS = ['c15_scalar_sample', 'c15_range_sample', 'c15_radius_scale', 'c15_rad
            'c15_thickness_scale', 'c15_thickness_inverse_scale', 'c15_index_scale', 'c15_index_inverse_scale',
            'c15_asphere_scale', 'c15_asphere_inverse_scale', 'c15_conic_scale', 'c15_conic_inverse_scale',
            'c15_tilt_scale', 'c15_tilt_inverse_scale', 'c15_decenter_scale', 'c15_decenter_inverse_scale',
+           'c15_poly_scale', 'c15_poly_inverse_scale',
            'c15_get_thickness', 'c15_radius_get']
 THEOREMS = None   # filled from Props/C15.v below
 COQ_TARGETS = ['Model/M_C15.vo', 'Spec/S_C15.vo', 'Lemmas/L_C15.vo']
@@ -76,7 +77,7 @@ def kernel_cases(ctx):
         idx = g.r.randint(0, m + 1) if i % 3 else m     # idx == len: wrap-around branch
         rs.append([idx, vs])
     yield 'c15_range_sample', rs, {'arrays': ['self.values']}
-    for k in ('radius', 'thickness', 'index', 'conic', 'tilt', 'decenter'):
+    for k in ('radius', 'thickness', 'index', 'conic', 'tilt', 'decenter', 'poly'):
         yield f'c15_{k}_scale', vals, {'scalars': ['value']}
         yield f'c15_{k}_inverse_scale', vals, {'scalars': ['scaled_value']}
     asp = [[g.uni(-1, 1) * 10 ** g.r.randint(-12, 2), g.r.randint(0, 5)] for _ in range(n)]
@@ -157,6 +158,10 @@ def nominal_of(spec, h):
         return m[1] if isinstance(m, list) and m[0] == 'ideal' else 1.6
     if t == 'asphere_coeff':
         return s['coefficients'][h['kw']['coeff_number']]
+    if t in ('polynomial_coeff', 'chebyshev_coeff'):
+        a, b = h['kw']['coeff_index']
+        co = s['coefficients']
+        return co[a][b] if a < len(co) and b < len(co[0]) else 0.0
     return 0.0
 
 
@@ -402,6 +407,86 @@ def tiny_scenario(r, idx, decade, htype):
             'tiny': decade}
 
 
+COEFF_KINDS = ['inside', 'row-outside', 'col-outside', 'both-outside']
+
+
+def freeform_scenario(r, idx, geom, kind):
+    """polynomial / Chebyshev front surface with a NON-SQUARE, fully populated coefficient array; the toleranced
+    coeff_index lies inside the array or outside it in the row direction, the column direction or both"""
+    nr, nc = r.choice([(3, 2), (2, 3), (4, 2), (2, 4), (3, 4)])
+    if geom == 'polynomial':
+        coefs = [[(r.uniform(0.3, 1) * r.choice([-1, 1]) * 10 ** (-2.5 - (a + b))) if a + b > 0 else 0.0
+                  for b in range(nc)] for a in range(nr)]
+        s0 = {'type': 'polynomial', 'coefficients': coefs}
+    else:
+        coefs = [[(r.uniform(0.3, 1) * r.choice([-1, 1]) * 10 ** (-2 - (a + b))) if a + b > 0 else 0.0
+                  for b in range(nc)] for a in range(nr)]
+        s0 = {'type': 'chebyshev', 'coefficients': coefs, 'norm_x': r.uniform(20, 40), 'norm_y': r.uniform(20, 40)}
+    s0.update({'radius': r.uniform(45, 80), 'conic': r.choice([0.0, r.uniform(-0.8, 0.2)]), 'thickness': r.uniform(4, 6),
+               'material': ['ideal', r.uniform(1.5, 1.7), 0.0]})
+    spec = _lens([s0, {'radius': -r.uniform(120, 300), 'thickness': r.uniform(50, 80), 'material': 'air'}],
+                 waves=((r.choice(WAVES), True),))
+    spec['aperture'] = ['EPD', r.uniform(5, 7)]
+    if kind == 'inside':
+        ci = [r.randrange(nr), r.randrange(nc)]
+        if ci == [0, 0]:
+            ci = [nr - 1, nc - 1]
+    elif kind == 'row-outside':
+        ci = [nr + r.choice([0, 1]), r.randrange(nc)]
+    elif kind == 'col-outside':
+        ci = [r.randrange(1, nr), nc + r.choice([0, 1])]
+    else:
+        ci = [nr + r.choice([0, 1]), nc + r.choice([0, 1])]
+    prim = spec['wavelengths'][0][0]
+    vt = 'polynomial_coeff' if geom == 'polynomial' else 'chebyshev_coeff'
+    nom = coefs[ci[0]][ci[1]] if ci[0] < nr and ci[1] < nc else 0.0
+    d = 10 ** (-2.5 - min(ci[0] + ci[1], 4)) * r.uniform(0.2, 0.6)
+    analysis = r.choice(['sens', 'mc'])
+    if analysis == 'sens':
+        sam = ['range', nom - d, nom + d, 3]
+    else:
+        sam = r.choice([['uniform', nom - d, nom + d, r.randrange(0, 10 ** 6)], ['range', nom - d, nom + d, 2]])
+    perts = [{'type': vt, 'kw': {'surface_number': 1, 'coeff_index': ci}, 'sampler': sam}]
+    if r.random() < 0.5:
+        perts.append({'type': 'thickness', 'kw': {'surface_number': 1}, 'sampler': ['range', s0['thickness'] - 0.05, s0['thickness'] + 0.05, 2]})
+    ops = [['real_y_intercept', {'surface_number': -1, 'Hx': 0.0, 'Hy': 0.0, 'Px': 0.5, 'Py': 0.7, 'wavelength': prim}],
+           ['real_x_intercept', {'surface_number': -1, 'Hx': 0.0, 'Hy': 0.0, 'Px': -0.6, 'Py': 0.3, 'wavelength': prim}],
+           ['rms_spot_size', {'surface_number': -1, 'Hx': 0.0, 'Hy': 0.0, 'num_rays': 3, 'wavelength': prim, 'distribution': 'hexapolar'}]]
+    return {'name': f'f{idx}-{geom}-{kind}', 'lens': spec, 'pickups': [], 'solves': [], 'operands': ops, 'perts': perts,
+            'comps': [], 'method': 'generic', 'tol': 1e-5, 'analysis': analysis, 'trials': 3 if analysis == 'mc' else None,
+            'WS': sorted({0.45, 0.7, prim}), 'check_repro': True, 'coeff_class': f'{geom}/{kind}',
+            'c2shape': [max(nr, ci[0] + 1), max(nc, ci[1] + 1)]}
+
+
+def freeform_nominal_scenario(r, idx, geom, kind):
+    """the same classes with a perturbation EQUAL to the nominal value (0 outside the stored array)"""
+    sc = freeform_scenario(r, idx, geom, kind)
+    p = sc['perts'][0]
+    ci = p['kw']['coeff_index']
+    co = sc['lens']['surfaces'][0]['coefficients']
+    nom = co[ci[0]][ci[1]] if ci[0] < len(co) and ci[1] < len(co[0]) else 0.0
+    p['sampler'] = ['scalar', nom]
+    sc['perts'] = [p]
+    sc['analysis'], sc['trials'] = 'mc', 2
+    sc['nominal_clause'] = True
+    sc['name'] += '-nominal'
+    return sc
+
+
+def asphere_beyond_scenario(r, idx):
+    """asphere_coeff index beyond the stored coefficient list: optiland refuses to register it (IndexError); the lens must
+    be left untouched.  (Should a later version pad the list instead, the ordinary clauses apply.)"""
+    spec = asph_lens(r)
+    n = len(spec['surfaces'][0]['coefficients'])
+    prim = spec['wavelengths'][0][0]
+    return {'name': f'a{idx}-asphere-beyond-list', 'lens': spec, 'pickups': [], 'solves': [],
+            'operands': [['real_y_intercept', {'surface_number': -1, 'Hx': 0.0, 'Hy': 0.0, 'Px': 0.0, 'Py': 1.0, 'wavelength': prim}]],
+            'perts': [{'type': 'asphere_coeff', 'kw': {'surface_number': 1, 'coeff_number': n + r.choice([0, 1])},
+                       'sampler': ['range', -1e-13, 1e-13, 2]}], 'comps': [], 'method': 'generic', 'tol': 1e-5,
+            'analysis': 'sens', 'trials': None, 'WS': sorted({0.45, 0.7, prim}), 'check_repro': False,
+            'expect_setup_error': True, 'coeff_class': 'asphere/beyond-list'}
+
+
 HISTORIES = ['mc-then-sens', 'sens-twice', 'advance-then-sens', 'mc-twice', 'shared-sens', 'shared-mc']
 
 
@@ -452,10 +537,21 @@ def class_scenarios(ctx, seed_off=0):
         out.append(tiny_scenario(r, 2 + i, r.choice([2, 3, 4, 6, 7, 8, 9, 10, 11, 12]), t))
     # histories on one Tolerancing object
     out += [history_scenario(r, i, k) for i, k in enumerate(HISTORIES)]
+    # freeform coefficient arrays: every index class for both geometry classes; nominal-value perturbations on the classes
+    # that grow the array; an asphere index beyond the stored list
+    for gi, geom in enumerate(('polynomial', 'chebyshev')):
+        for ki, kind in enumerate(COEFF_KINDS):
+            out.append(freeform_scenario(r, gi * 4 + ki, geom, kind))
+    out.append(freeform_nominal_scenario(r, 8, r.choice(['polynomial', 'chebyshev']), 'col-outside'))
+    out.append(freeform_nominal_scenario(r, 9, r.choice(['polynomial', 'chebyshev']), r.choice(['both-outside', 'row-outside', 'inside'])))
+    out.append(asphere_beyond_scenario(r, 10))
     if not ctx.quick():
         for i in range(20, 80):
             out.append(tiny_scenario(r, i, 1 + i % 12, types[i % 7]))
             out.append(history_scenario(r, i, HISTORIES[i % 6]))
+            out.append(freeform_scenario(r, i, ('polynomial', 'chebyshev')[i % 2], COEFF_KINDS[(i // 2) % 4]))
+            if i % 3 == 0:
+                out.append(freeform_nominal_scenario(r, i, ('polynomial', 'chebyshev')[i % 2], COEFF_KINDS[(i // 2) % 4]))
         for i in range(4, 24):
             out.append(bounded_scenario(r, i, BOUND_KINDS[i % 4]))
             out.append(dependent_scenario(r, i, DEP_KINDS[i % 3]))
@@ -498,10 +594,28 @@ def coq_handle(h, scaled):
         k = 'HTiltX' if kw['axis'] == 'x' else 'HTiltY'
     elif t == 'decenter':
         k = 'HDecX' if kw['axis'] == 'x' else 'HDecY'
+    elif t in ('polynomial_coeff', 'chebyshev_coeff'):
+        k = 'HPoly'
     else:
         k = HK[t]
-    return (f'(mkH (O:=FOps) {k} {vlib.zlit(kw["surface_number"])} {vlib.zlit(kw.get("coeff_number", 0))} '
-            f'{fh(kw.get("wavelength", 0.0))} {"true" if scaled else "false"})')
+    j, j2 = kw.get('coeff_number', 0), 0
+    if k == 'HPoly':
+        j, j2 = kw['coeff_index']
+    return (f'(mkH (O:=FOps) {k} {vlib.zlit(kw["surface_number"])} {vlib.zlit(j)} '
+            f'{fh(kw.get("wavelength", 0.0))} {"true" if scaled else "false"} {vlib.zlit(j2)})')
+
+
+def c2_rows(s):
+    """the 2-D coefficient window of a snapshot as a Coq list of rows"""
+    c2 = s.get('c2') or []
+    if not c2:
+        return '[]'
+    R, C = C2SHAPE
+    body = c2[:R * C]
+    return '[' + '; '.join(fl(body[a * C:(a + 1) * C]) for a in range(R)) + ']'
+
+
+C2SHAPE = [0, 0]
 
 
 def coq_snapshot(snap, pickups):
@@ -511,7 +625,7 @@ def coq_snapshot(snap, pickups):
         med = (f'(MIdeal (O:=FOps) {fh(s["med"][1])} {fh(s["med"][2])})' if s['med'][0] == 'ideal'
                else f'(MGlass (O:=FOps) {int(s["med"][1])}%nat)')
         ss.append(f'(mkS (O:=FOps) {kind} {fh(s["rad"])} {fh(s["con"])} {fh(s["z"])} {fh(s["dx"])} {fh(s["dy"])} '
-                  f'{fh(s["rx"])} {fh(s["ry"])} {fl(s["cf"])} {med})')
+                  f'{fh(s["rx"])} {fh(s["ry"])} {fl(s["cf"])} {med} {c2_rows(s)})')
     pk = []
     for (src, attr, tgt, scale, off) in pickups:
         a = {'radius': 'PRadius', 'conic': 'PConic', 'thickness': 'PThick'}[attr]
@@ -523,12 +637,15 @@ def snap_vec(snap):
     v = []
     for s in snap:
         v += [s['kind'], s['rad'], s['con'], s['z'], s['dx'], s['dy'], s['rx'], s['ry']] + s['cf']
+        c2 = s.get('c2') or []
+        v += c2[:-1] if c2 else [0.0] * (C2SHAPE[0] * C2SHAPE[1])
         v += [0.0 if s['med'][0] == 'ideal' else 1.0] + s['nws']
     return v
 
 
 def coq_body(sc, r):
     WS = sc['WS']
+    C2SHAPE[0], C2SHAPE[1] = sc.get('c2shape', [0, 0])
     L = []
     # catalogue glasses: table over the wavelengths that are ever asked
     arms = []
@@ -543,7 +660,7 @@ def coq_body(sc, r):
     L.append('Definition hp : list (handle (O:=FOps)) := [' + '; '.join(coq_handle(p, False) for p in sc['perts']) + '].')
     L.append('Definition hc : list (handle (O:=FOps)) := [' + '; '.join(coq_handle(c, True) for c in sc['comps']) + '].')
     L.append('Definition vg := cget (O:=FOps) gn.  Definition vs := cset (O:=FOps).  Definition up := cupd (O:=FOps) gn.')
-    L.append('Definition evf := lens_vec (O:=FOps) gn ws.')
+    L.append(f'Definition evf := lens_vec (O:=FOps) gn ws ({C2SHAPE[0]}%nat, {C2SHAPE[1]}%nat).')
     L.append('Definition pv := map (mkvar vg l0) hp.  Definition cv := map (mkvar vg l0) hc.')
     L.append('Definition drw (g : list float) (_ : unit) : option (float * list float) := '
              'match g with v :: g\' => Some (v, g\') | [] => None end.')
@@ -692,11 +809,26 @@ def python_level_checks(sc, r):
                         detail='two identical seeded runs produced different tables'))
     if sc.get('nominal_clause'):
         for ti, tr in enumerate(r['trials']):
-            if not all(_close(a, b, 1e-9) for a, b in zip(tr['row_ops'], r['ops_nominal'])):
+            if not all(_close(a, b, 1e-9) for a, b in zip(tr['row_ops'], r['ops_built'])):
                 nd = r['oracle'][ti].get('nominal_diff', []) if ti < len(r.get('oracle', [])) else []
                 out.append(dict(base, check='nominal_value', violates_property=True, diff=nd,
-                                detail=f'perturbation equal to nominal gives {tr["row_ops"]} != nominal {r["ops_nominal"]}'))
+                                detail=f'perturbation equal to nominal gives {tr["row_ops"]} != nominal {r["ops_built"]}'))
                 break
+    # registering perturbations / compensators must not change the lens (zero padding of a coefficient array apart) ...
+    if r.get('setup_diff'):
+        out.append(dict(base, check='setup_changes_lens', violates_property=True, diff=r['setup_diff'],
+                        detail=f'the lens right after add_perturbation/add_compensator differs from the built nominal lens at {r["setup_diff"][:4]}'))
+    if not all(_close(a, b, 1e-12) for a, b in zip(r.get('ops_nominal', []), r.get('ops_built', []))):
+        out.append(dict(base, check='setup_changes_operands', violates_property=True,
+                        detail=f'operands after registering the perturbations {r["ops_nominal"]} != operands of the built lens {r["ops_built"]}'))
+    # ... and the surfaces keep the PRESCRIBED shape (independent sag of the scenario's coefficients, zero padded)
+    sb = r.get('sag_built', 0.0)
+    for key in ('sag_after_setup', 'sag_after_run', 'sag_after_reset'):
+        v = r.get(key, 0.0)
+        if v != v or v > max(1e-12, 10 * sb):
+            out.append(dict(base, check=key, violates_property=True,
+                            detail=f'{key}: surface sag differs from the sag of the prescribed coefficients by {v!r} (built lens: {sb!r})'))
+            break
     # compensator limits: the recorded (compensated) lens must respect the declared limits ...
     for ci, c in enumerate(sc['comps']):
         b = c.get('bounds') or {}
@@ -789,6 +921,8 @@ def system_checks(ctx):
         if 'error' in r:
             errors.append({'scenario': sc, 'check': 'impl-raised', 'detail': r['error'], 'violates_property': False})
             continue
+        if 'setup_error' in r:
+            continue        # registration refused (expected for an asphere index beyond the stored list): checked below
         if sc.get('solves') or sc.get('share'):
             continue        # solves / one sampler object shared by two perturbations are not in the Coq model:
                             # implementation-level clauses only (below)
@@ -803,7 +937,17 @@ def system_checks(ctx):
             continue
         # clauses stated directly on the implementation (all scenarios): limits respected, independent bounded
         # reference, to_dict() back at nominal; for lenses with solves also the prescription clauses
-        keep = ('comp_bounds', 'bounded_reference', 'dict_run', 'dict_reset')
+        keep = ('comp_bounds', 'bounded_reference', 'dict_run', 'dict_reset', 'setup_changes_lens', 'setup_changes_operands',
+                'sag_after_setup', 'sag_after_run', 'sag_after_reset')
+        if sc.get('coeff_class'):
+            hist['coeff-index:' + sc['coeff_class']] = hist.get('coeff-index:' + sc['coeff_class'], 0) + 1
+        if 'setup_error' in r:
+            n_solve += 1
+            if r['setup_error'] != 'IndexError' or r['setup_error_diff'] or r['sag_after_setup'] > 1e-12:
+                wit.append({'scenario': sc, 'analysis': sc['analysis'], 'check': 'setup_error_changes_lens', 'violates_property': True,
+                            'detail': f'add_perturbation raised {r["setup_error"]} and left the lens changed at {r["setup_error_diff"][:4]} '
+                                      f'(sag deviation {r["sag_after_setup"]!r})'})
+            continue
         if sc.get('solves') or sc.get('share'):
             keep = None
             n_solve += 1
